@@ -35,7 +35,7 @@ def to_scenario(sid, log, q, b, rng):
                 q2 = rng.choice([1, 2, 4, 8])
                 nq, nb = rng.choice([(q2, q2 * rng.choice([1, 2])), (cur[0], cur[1] * 2), (cur[0], max(1, cur[1] // 2)), (cur[0] * 2, cur[1])])
             steps.append({"k": "resize", "qps": nq, "burst": nb})
-    return {"id": sid, "qps": q, "burst": b, "steps": steps, "init": ["", "mif", "exempt", ""][sid % 4]}     # what the schema was before it became this token bucket
+    return {"id": sid, "qps": q, "burst": b, "steps": steps, "init": ["", "mif", "exempt", ""][sid % 4], "twin": sid % 3 == 0}     # what the schema was before it became this token bucket
 
 
 def main(tier, replay):
